@@ -56,5 +56,6 @@ def check(run):
             corrupt.dump_violation(run, kind, fails[0])
     run.note("container emptiness that no field rule covers (a tree without variants -> IndexError in General.serialize) is outside "
              "both halves of the property")
-    run.note("proved: per-class validators and flat section writers; nested containers (variant forest, image cells, tree image tables) "
-             "are exercised by the bounded one-field-corruption enumeration only")
+    run.note("proved: per-class validators (flat and container-shaped), flat section writers, and the composeinfo forest writer "
+             "(Variants.serialize refuses a forest whose child or grand-child breaks any rule); image cells and tree image tables on the write "
+             "side are exercised by the bounded one-field-corruption enumeration")
